@@ -14,6 +14,11 @@ Static clauses decided (necessary conditions of C07):
          flush is the value a fresh session reads.
  LEX     text written for the database is produced with isoformat()/explicit formatting, not with strftime('%Y...'): %Y is
          not zero-padded for years below 1000 on glibc, and the readers (strptime / positional slicing) need four digits.
+ WRITE   every changed value is written: in Entity._save_updated_ each iteration of the loop over the attributes whose write
+         bit is set adds the attribute's columns to the UPDATE and its value to the arguments (no iteration is skipped), and the
+         write path (_save_, _save_created_, _save_updated_, _update_dbvals_) never consults the converters' tolerant
+         comparison dbvals_equal, which exists to compare what the *database returned* with what the session remembers; in
+         Entity._save_created_ every attribute that has a value contributes to the INSERT.
 """
 NOT_DECIDED = "value-level round trips per backend and type (needs execution against each engine)"
 
@@ -105,8 +110,41 @@ def run(ctx):
                '' if not bad else '`%s` formats the year with %%Y: glibc does not zero-pad years below 1000, the stored text is then not parsed back by the '
                'reader (the value comes back as str) and sorts wrongly as text' % norm(bad[0]), node=bad[0] if bad else None, expected='isoformat()', nontrivial=bool(bad))
 
+    # ---------------------------------------------------------------- WRITE
+    su = repo.fn('pony.orm.core', 'Entity._save_updated_')
+    g = ctx.cg.cfg(su)
+    loops = [x for x in g.nodes if x.kind == 'iter' and '_wbits_' in norm(x.ast.iter) and any('_vals_' in norm(b) for b in x.ast.body)]   # the value-collecting loop
+    ctx.need(bool(loops), 'C07-WRITE: loop over the attributes with write bits not found in Entity._save_updated_')
+    for L in loops:
+        tv = norm(L.ast.target)
+        ext = nodes_calling(g, lambda c: isinstance(c.func, ast.Attribute) and c.func.attr == 'extend' and dotted(c.func.value) == 'update_columns'
+                            and c.args and norm(c.args[0]) == tv + '.columns')
+        vals = nodes_calling(g, lambda c: isinstance(c.func, ast.Attribute) and c.func.attr in ('extend', 'append') and dotted(c.func.value) == 'values')
+        body_first = [y for y, lab in g.succ[L.id] if lab in ('body', 'T', 'iter')] or [y for y, lab in g.succ[L.id]][:1]
+        def every_iteration(guards):
+            r = g.reach([n_.id for n_ in L.ast.body and [x for x in g.nodes if x.stmt is L.ast.body[0]][:1]], avoid=guards)
+            return L.id not in r
+        ok1 = bool(ext) and every_iteration(ext); ok2 = bool(vals) and every_iteration(vals)
+        ctx.ob('C07-WRITE.every-written-attribute-is-in-the-update', su, L.ast.iter, ok1 and ok2,
+               '' if ok1 and ok2 else 'an iteration of the loop over the attributes with pending writes can finish without adding %s: the new value of that '
+               'attribute stays in the session but is never sent to the database' % ('its columns to update_columns' if not ok1 else 'its value to the arguments'), node=L.ast)
+        clr = [x for x in g.nodes if x.kind == 'stmt' and isinstance(x.ast, ast.AugAssign) and dotted(x.ast.target) and dotted(x.ast.target).endswith('._wbits_')
+               and any(x.stmt is b or x.ast in ast.walk(b) for b in L.ast.body)]
+        ctx.ob('C07-WRITE.write-bits-not-cleared-while-collecting', su, clr[0].ast if clr else L.ast.iter, not clr,
+               '' if not clr else 'write bits are cleared inside the loop that collects the columns to update', node=clr[0].ast if clr else L.ast)
+    nw = 0
+    for q in ('Entity._save_', 'Entity._save_created_', 'Entity._save_updated_', 'Entity._save_deleted_', 'Entity._update_dbvals_', 'Entity._save_principal_objects_'):
+        f = repo.fn('pony.orm.core', q); nw += 1
+        bad = [c for c in calls_in(f.node) if isinstance(c.func, ast.Attribute) and c.func.attr == 'dbvals_equal']
+        ctx.ob('C07-WRITE.no-tolerant-comparison-on-the-write-path', f, bad[0] if bad else f.node, not bad,
+               '' if not bad else '`%s` decides what to write with the tolerant comparison (floats within 1e-14 relative, ...): a small change of a value is '
+               'treated as no change and never stored' % norm(bad[0]), node=bad[0] if bad else None, nontrivial=bool(bad))
+    ctx.floor('C07-WRITE', nw, 6, 'write-path functions')
+
 
 MUTANTS = [
+    dict(id='C07-w1', file='pony/orm/core.py', fn='Entity._save_updated_', old="            update_columns.extend(attr.columns)\n            val = obj._vals_[attr]\n", new="            val = obj._vals_[attr]\n            if val == obj._dbvals_.get(attr): continue\n            update_columns.extend(attr.columns)\n", expect='C07-WRITE.every'),
+    dict(id='C07-w2', file='pony/orm/core.py', fn='Entity._save_updated_', old="                dbval = attr.converters[0].val2dbval(val, obj)\n", new="                dbval = attr.converters[0].val2dbval(val, obj)\n                same = attr.converters[0].dbvals_equal(obj._dbvals_.get(attr), dbval)\n", expect='C07-WRITE.no-tolerant'),
     dict(id='C07-m1', file='pony/orm/dbproviders/sqlite.py', fn='SQLiteTimeConverter.sql2py', old="dt = datetime.datetime.strptime(val, '%H:%M:%S')", new="dt = datetime.strptime(val, '%H:%M:%S')", expect='C07-MOD'),
     dict(id='C07-m2', file='pony/orm/dbapiprovider.py', fn='DecimalConverter.validate', old="        if exp is not None and val.is_finite(): val = val.quantize(exp)  # the scale the database will store\n", new='', expect='C07-TWIN'),
     dict(id='C07-m3', file='pony/utils/utils.py', fn='datetime2timestamp', old="    result = d.isoformat(' ')\n    if len(result) == 19: return result + '.000000'\n    return result", new="    return d.strftime('%Y-%m-%d %H:%M:%S.%f')", expect='C07-LEX'),
